@@ -509,7 +509,11 @@ def main(argv):
                 logp = os.path.join(os.path.dirname(tape), 'log')
                 rep = open(logp, errors='replace').read() if os.path.exists(logp) else ''
                 m = re.search(r'(ERROR: AddressSanitizer|WARNING: ThreadSanitizer|runtime error:)', rep)
-                if arm.get('threads') and m and '/repo/lib' in rep:
+                # the ACCESS sites (frame #0 of each stack in the report) must be inside /repo: a race between two harness
+                # statements that merely run on a library thread is a harness bug, not a finding
+                sites = re.findall(r'^\s*#0 \S+ (?:in )?\S+ (/\S+?):\d+', rep, re.M)
+                in_repo = any(sx.startswith('/repo/') for sx in sites) if sites else ('/repo/lib' in rep)
+                if arm.get('threads') and m and in_repo:
                     for _ in range(12):   # try harder to reproduce before falling back to the recorded report
                         s2, t2 = run_replay(exe, tape, a.tier, arm.get('env'), 600, is_fuzz)
                         if s2 in ('fail', 'crash'):
